@@ -1067,6 +1067,8 @@ class KeyTranslatingStore(Store):
         tkey = self.translate_key(key)
         metadata = self.substore.get_metadata(tkey)
         metadata["key"] = key
+        if "fileinfo" in metadata:
+            metadata["fileinfo"]["name"] = key_name(key)
         if "recipes_key" in metadata:
             metadata["recipes_key"] = self.translate_key(
                 metadata["recipes_key"], inverse=True
